@@ -17,6 +17,7 @@ SameError == (l > 1 /\ Cur.run.returned) => Cur.run.class = Cur.twin.class /\ Cu
 Outcome == (l > 1 /\ Cur.run.returned) =>
   LET c == Cur.case  o == Cur.run IN
   /\ o.cacheok /\ o.extra = 0
+  /\ o.prekept = c.pre            \* preloading only ADDS to the read cache (model: cache grows monotonically from PreCached)
   /\ (c.readfail = 0 /\ c.decerr = 0) => (o.class = "ok" /\ SetOf(o.cache) = 1..c.n)
   /\ (c.readfail > 0) => (o.class = "injected" /\ o.cat = "external" /\ o.cache = <<>>)
   /\ (c.readfail = 0 /\ c.decerr > 0) => (o.class # "ok" /\ SetOf(o.cache) \subseteq ((1..c.n) \ {c.decerr}))
